@@ -565,31 +565,14 @@ func runC09(c *Ctx) {
 		if nested {
 			startB = roIf.Block()
 		}
-		// BFS from the first of the two tests without the allowed edges
-		seen := map[*ssa.BasicBlock]bool{startB: true}
-		work := []*ssa.BasicBlock{startB}
-		leak := false
-		for len(work) > 0 {
-			b := work[len(work)-1]
-			work = work[:len(work)-1]
-			if b != startB {
-				for _, in := range b.Instrs {
-					if isHandle(in) {
-						leak = true
-					}
-				}
+		// from the first of the two tests, without the allowed edges: followed path by path, so that a refusal that is
+		// first put into a variable ("denial") and acted upon behind a join is seen for what it is
+		leak := reachStagedX(startB, len(startB.Instrs)-1, []func(ssa.Instruction) bool{isHandle}, nil, func(a, b *ssa.BasicBlock, _ int) bool {
+			if allowed[[2]*ssa.BasicBlock{a, b}] {
+				return true
 			}
-			for _, s := range b.Succs {
-				if allowed[[2]*ssa.BasicBlock{b, s}] || seen[s] {
-					continue
-				}
-				if len(ls) == 1 && s == ls[0].head {
-					continue
-				}
-				seen[s] = true
-				work = append(work, s)
-			}
-		}
+			return len(ls) == 1 && b == ls[0].head
+		})
 		c.check(!leak, "R3", "gate dominates handlePacket", pos(clsIf), "handlePacket is reachable only through 'classified read-only' or 'server not read-only'", "handlePacket is reachable on a path that bypasses the read-only gate")
 		// the gate precedes every handlePacket call
 		for _, h := range findInstrs(worker, isHandle) {
